@@ -332,8 +332,18 @@ void dispatchArgs(GenState &gs, Node *c) {
     return;
   }
 
-  gs.getSymbols().argnum++;
+  // parameters occupy registers 0..argnum-1 in order; a repeated name would
+  // share a register and leave the frame smaller than the argument count
+  std::size_t regs_before = gs.getSymbols().register_state.size();
   gs.getSymbols().fetchVariableRegister(std::string(c->tok));
+  if (gs.getSymbols().register_state.size() == regs_before) {
+    gs.verr(CodegenResult::Error::Type::DUPLICATE_PARAMETER,
+            "parameter '" + c->tok + "' is declared twice in program '" +
+                gs.getSymbols().name + "'",
+            c->file, c->line);
+    return;
+  }
+  gs.getSymbols().argnum++;
 }
 
 // dispatch a function definition
